@@ -4,6 +4,8 @@ import (
 	"context"
 	"encoding/json"
 	"fmt"
+	"sync"
+	"sync/atomic"
 	"time"
 
 	eb "github.com/jilio/ebu"
@@ -79,9 +81,79 @@ func shapeCase[T any](shape string, mk func(id int) T) map[string]any {
 	return out
 }
 
+// concurrentShape publishes n events of one shape (ids base+1..base+n) from its own goroutine.
+type shapeRun struct {
+	name    string
+	base    int
+	evtype  string
+	publish func(bus *eb.EventBus, id int)
+	replay  func(store eb.EventStore) int
+}
+
+func mkShapeRun[T any](name string, base int, mk func(id int) T) shapeRun {
+	return shapeRun{name: name, base: base, evtype: eb.EventType(mk(1)),
+		publish: func(bus *eb.EventBus, id int) { eb.Publish(bus, mk(id)) },
+		replay: func(store eb.EventStore) int {
+			var n atomic.Int64
+			b := eb.New(eb.WithStore(store))
+			if err := eb.SubscribeWithReplay(context.Background(), b, "c-"+name, func(T) { n.Add(1) }); err != nil {
+				return -1
+			}
+			return int(n.Load())
+		}}
+}
+
+// concurrentShapes: all shapes published at the same time on one persistent bus.
+func concurrentShapes(per int) []map[string]any {
+	store := eb.NewMemoryStore()
+	bus := eb.New(eb.WithStore(store))
+	runs := []shapeRun{
+		mkShapeRun("plain struct by value", 0, func(id int) NPlain { return NPlain{ID: id} }),
+		mkShapeRun("plain struct by pointer", 100000, func(id int) *NPlain { return &NPlain{ID: id} }),
+		mkShapeRun("EventTypeName on value receiver, by value", 200000, func(id int) NVal { return NVal{ID: id} }),
+		mkShapeRun("EventTypeName on pointer receiver, by value", 300000, func(id int) NPtr { return NPtr{ID: id} }),
+		mkShapeRun("EventTypeName on pointer receiver, by pointer", 400000, func(id int) *NPtr { return &NPtr{ID: id} }),
+	}
+	var wg sync.WaitGroup
+	start := make(chan struct{})
+	for _, sr := range runs {
+		wg.Add(1)
+		go func(sr shapeRun) {
+			defer wg.Done()
+			<-start
+			for i := 1; i <= per; i++ {
+				sr.publish(bus, sr.base+i)
+			}
+		}(sr)
+	}
+	close(start)
+	wg.Wait()
+	evs, _, _ := store.Read(context.Background(), eb.OffsetOldest, 0)
+	var out []map[string]any
+	for _, sr := range runs {
+		stored, foreign := 0, 0
+		for _, e := range evs {
+			var d struct {
+				ID int `json:"id"`
+			}
+			json.Unmarshal(e.Data, &d)
+			mine := d.ID > sr.base && d.ID <= sr.base+per
+			switch {
+			case e.Type == sr.evtype && mine:
+				stored++
+			case e.Type == sr.evtype: // the shapes' names are pairwise different
+				foreign++
+			}
+		}
+		out = append(out, map[string]any{"e": "concurrent", "shape": "concurrent publishers: " + sr.name, "evtype": sr.evtype,
+			"published": per, "stored": stored, "foreign": foreign, "replayed": sr.replay(store)})
+	}
+	return out
+}
+
 // C15: one type name per event type, everywhere.
 func c15(r *core.Run) {
-	r.Rule = "TLC evaluation of Names.tla over the full cross product shape (published by value / by pointer x no EventTypeName / on the value receiver / on the pointer receiver) x route (persist, SubscribeWithReplay[T], RegisterUpcast source and target), with the pre-fix variant as mutant; the same cross product plus the state package's messages exercised on the real bus (publish + persist, stored type vs EventType, typed replay subscription, typed upcasters from and to the type) and validated against NamesTrace.tla; a case is one shape"
+	r.Rule = "TLC evaluation of Names.tla over the full cross product shape (published by value / by pointer x no EventTypeName / on the value receiver / on the pointer receiver) x route (persist, SubscribeWithReplay[T], RegisterUpcast source and target), with the pre-fix variant as mutant; the same cross product plus the state package's messages exercised on the real bus (publish + persist, stored type vs EventType, typed replay subscription, typed upcasters from and to the type) and validated against NamesTrace.tla; all shapes published at the same time from separate goroutines on one persistent bus (every record under its own event's name with its own data, typed replay delivers exactly them); a case is one shape"
 	r.Exhaustive = true
 	r.MustHold(core.TLCOpts{Module: "Names", Timeout: 5 * time.Minute})
 	r.MustFail(core.TLCOpts{Module: "Names", Config: "Names_asis.cfg"}, "OneName")
@@ -97,6 +169,9 @@ func c15(r *core.Run) {
 		shapeCase("state.ChangeMessage by pointer (as the helpers return it)", func(id int) *state.ChangeMessage { return chg }),
 		shapeCase("state.ControlMessage by value", func(id int) state.ControlMessage { return *state.Reset("") }),
 		shapeCase("state.ControlMessage by pointer", func(id int) *state.ControlMessage { return state.Reset("") }),
+	}
+	for round := 0; round < r.Pick(6, 120); round++ {
+		cases = append(cases, concurrentShapes(150+50*(round%4))...)
 	}
 	var segs []core.Segment
 	for _, c := range cases {
